@@ -513,5 +513,7 @@ def obligations(tier, rng):
         for const in ('begin', 'end'):
             out.append(ob('C14', 'bounds', 'bounds/dt/%s[const %s]' % (op, const), op=op, bu='', eu='', const=const, validate=1))
             out.append(ob('C14', 'bounds', 'bounds/dt/%s[const %s, ms:s]' % (op, const), op=op, bu='ms', eu='s', sep=':', const=const, validate=1))
+    seen = set()
+    out = [o for o in out if not (o['oid'] in seen or seen.add(o['oid']))]
     from .. import core as _core
     return out + _core.make_twins(out, [("char1/dt/T0/r@6/", 'nospace'), ('bounds/dt/always[-,-]', 'strict'), ('bounds/dt/until[ms,s]', 'strict')])
